@@ -10,7 +10,8 @@
    ("get() must succeed", "unmap() must succeed") or NULL is dereferenced;
    [Wrong] = a result differs from the finite-map specification. *)
 From Coq Require Import List ZArith Bool.
-From ABT Require Import DS.UnitMap DS.UnitMapProofs DS.UnitAssocProofs.
+From ABT Require Import DS.UnitMap DS.UnitMapProofs DS.UnitAssocProofs DS.UnitApi DS.UnitApiProofs.
+From ABT Require Import Conc.UnitMapConc Conc.UnitMapConcProofs Conc.UnitMapConcLink.
 Import ListNotations.
 Local Open Scope Z_scope.
 
@@ -70,7 +71,7 @@ Theorem C14_create_free_balanced : forall bi ops,
   | Wrong => False
   end.
 Proof.
-  intros bi ops. pose proof (arun_Inv bi ops init_state (Inv_init bi)) as H.
+  intros bi ops. pose proof (arun_Inv bi ops init_state (UnitAssocProofs.Inv_init bi)) as H.
   destruct (arun bi init_state ops) as [[s rs]| | |]; auto.
   destruct H as [HI Hl]. split; auto. apply (Inv_log_function bi); auto.
 Qed.
@@ -83,7 +84,7 @@ Theorem C14_all_freed : forall bi ops s rs,
   (exists f, replay (a_log s) = Some f /\ forall u, f u = None) /\
   tbl_all_tombstones (a_tbl s) = true.
 Proof.
-  intros bi ops s rs E Hn. pose proof (arun_Inv bi ops init_state (Inv_init bi)) as H.
+  intros bi ops s rs E Hn. pose proof (arun_Inv bi ops init_state (UnitAssocProofs.Inv_init bi)) as H.
   rewrite E in H. destruct H as [HI _]. split.
   - apply (Inv_all_freed bi); auto.
   - apply (Inv_finalize_ok bi); auto.
@@ -103,7 +104,7 @@ Theorem C14_get_thread : forall bi ops s rs th x,
               | None => None
               end.
 Proof.
-  intros bi ops s rs th x E Ef. pose proof (arun_Inv bi ops init_state (Inv_init bi)) as H.
+  intros bi ops s rs th x E Ef. pose proof (arun_Inv bi ops init_state (UnitAssocProofs.Inv_init bi)) as H.
   rewrite E in H. destruct H as [HI _]. split.
   - apply (get_thread_correct bi); auto.
   - intros. apply unit_set_eq_thread_set; auto.
@@ -161,8 +162,68 @@ Example C14_failure_atomic_example :
   end.
 Proof. vm_compute. repeat split; reflexivity. Qed.
 
+(* ---- public API level (DS/UnitApi.v): create / push / pop / set_associated_pool /
+   migrate_to_pool / self_schedule / run_unit / free / revive over any mix of
+   built-in and user pools [bi], any pop policy (the index is an input of every
+   pop), any work-unit bodies (yield / migrate-self scripts) ---- *)
+
+(* Usage contract (else the run ends with code 1 = Misuse): pools are declared,
+   a descriptor is created once, ABT_pool_push(_thread) / ABT_self_schedule /
+   ABT_xstream_run_unit are applied to a work unit that is not in a pool,
+   ABT_thread_set_associated_pool to one that is not in a pool, free / revive to
+   a terminated one, and create_unit returns NULL or a fresh handle with bit 0
+   clear.  Then: no assertion of unit.c fires (code 2 never), and the complete
+   call log - create_unit, free_unit, push and pop of every user pool - replays:
+   each handle is created once per life, freed once by the pool that created it,
+   and never pushed, popped or freed after its free; the handles live at the end
+   are exactly the units of the work units associated with user pools. *)
+Theorem C14_api_balanced : forall bi pools ops,
+  let '(s, rs, e) := xrun bi (xinit pools) ops in
+  e <> Some 2 /\ e <> Some 3 /\
+  exists f, replay (a_log (x_a s)) = Some f /\ forall u, f u = user_assoc (a_thr (x_a s)) u.
+Proof.
+  intros bi pools ops. pose proof (xrun_XInv bi ops (xinit pools) (XInv_init bi pools)) as H.
+  destruct (xrun bi (xinit pools) ops) as [[s rs] e]. destruct H as (HI & H2 & H3).
+  repeat split; auto. apply (Inv_log_function bi). apply (xi_a _ _ HI).
+Qed.
+Print Assumptions C14_api_balanced.
+
+(* Whatever element its pop policy picks, a pool hands out a work unit that was
+   pushed to that pool and not popped since, and the unit <-> work-unit
+   translation done by the pop (ABT_unit_get_thread in the user's p_pop, or
+   pool_pop_wrapper for ABT_pool_def) gives the work unit whose unit it is: no
+   work unit is lost, duplicated or confused with another one. *)
+Theorem C14_pop_translates : forall bi pools ops0 s rs p k s' th u,
+  xrun bi (xinit pools) ops0 = (s, rs, None) ->
+  xstep bi s (XPop p k) = Ok (s', XRpop th u) ->
+  (th = 0 /\ u = 0 /\ zfind (x_pools s) p = Some []) \/
+  (exists c f x, zfind (x_pools s) p = Some c /\ In u c /\
+                 zfind (a_thr (x_a s)) th = Some f /\ t_unit f = u /\ t_pool f = p /\
+                 zfind (x_thr s) th = Some x /\ x_loc x = LPool).
+Proof.
+  intros bi pools ops0 s rs p k s' th u E. pose proof (xrun_XInv bi ops0 (xinit pools) (XInv_init bi pools)) as H.
+  rewrite E in H. destruct H as (HI & _). apply pop_result; auto.
+Qed.
+Print Assumptions C14_pop_translates.
+
+(* non-vacuity: pools 0 built-in, 1 and 2 user-defined; a named work unit with
+   body "yield" is created in pool 1 (unit 296), popped, asked to migrate to
+   pool 2, scheduled (migration handled: unit 2336 created, 296 freed, pushed to
+   pool 2), popped, run (yields: pushed back), popped, run to completion, freed *)
+Example C14_api_example :
+  let bi := fun p => p =? 0 in
+  let '(s, rs, e) := xrun bi (xinit [0; 1; 2])
+      [XCreate 16 1 true [SYield] [(296, true)]; XPop 1 0; XMigrate 16 2; XRun 16 [(2336, true)];
+       XPop 2 5; XRun 16 []; XPop 2 0; XCheck 16; XRun 16 []; XFree 16] in
+  e = None /\
+  rs = [XRcode 0; XRpop 16 296; XRcode 0; XRrun 0 0; XRpop 16 2336; XRrun 0 1; XRpop 16 2336;
+        XRcheck 2336 16; XRrun 0 2; XRcode 0] /\
+  rev (a_log (x_a s)) = [CCreate 1 16 296; CPush 1 296; CPop 1 296; CCreate 2 16 2336; CFree 1 296;
+                         CPush 2 2336; CPop 2 2336; CPush 2 2336; CPop 2 2336; CFree 2 2336] /\
+  x_runs s = [(16, 1)].
+Proof. vm_compute. repeat split; reflexivity. Qed.
+
 (* ---- concurrent map / unmap / get (LTS Conc/UnitMapConc.v) ---- *)
-From ABT Require Import Conc.UnitMapConc Conc.UnitMapConcProofs.
 
 (* For every number of threads and every interleaving of the atomic steps of
    unit_map_thread / unit_unmap_thread (writers, under the bucket lock, their
@@ -214,3 +275,12 @@ Example C14_concurrent_lookup_example :
   | None => False
   end.
 Proof. vm_compute. repeat split; reflexivity. Qed.
+
+(* The two hand-written models of unit.c agree: thread 0 executing whole
+   operations of the LTS one after the other yields, on all 6025
+   contract-respecting sequences of length <= 5 over three colliding handles
+   and a fourth one (map with succeeding / failing malloc, unmap, get), the
+   results and bucket chains of the list-level functions used by C14_lookup.
+   Bounded check by computation (not a theorem). *)
+Example C14_models_agree_bounded : check_upto 5 = true.
+Proof. exact (proj1 lts_matches_list_model_bounded). Qed.
